@@ -358,7 +358,8 @@ pub(crate) fn add(ctx: &mut TulispContext) {
         params: TulispObject,
         rest: TulispObject,
     ) -> Result<TulispObject, Error> {
-        let body = if rest.car()?.as_string().is_ok() {
+        // A leading string is a docstring only when body forms follow it.
+        let body = if rest.car()?.stringp() && rest.cdr()?.consp() {
             rest.cdr()?
         } else {
             rest
@@ -379,7 +380,8 @@ pub(crate) fn add(ctx: &mut TulispContext) {
 
     #[crate_fn_no_eval(add_func = "ctx")]
     fn lambda(params: TulispObject, rest: TulispObject) -> Result<TulispObject, Error> {
-        let body = if rest.car()?.as_string().is_ok() {
+        // A leading string is a docstring only when body forms follow it.
+        let body = if rest.car()?.stringp() && rest.cdr()?.consp() {
             rest.cdr()?
         } else {
             rest
@@ -501,7 +503,8 @@ pub(crate) fn add(ctx: &mut TulispContext) {
         params: TulispObject,
         rest: TulispObject,
     ) -> Result<TulispObject, Error> {
-        let body = if rest.car()?.as_string().is_ok() {
+        // A leading string is a docstring only when body forms follow it.
+        let body = if rest.car()?.stringp() && rest.cdr()?.consp() {
             rest.cdr()?
         } else {
             rest
